@@ -547,7 +547,18 @@ func runC18(c *fw.Ctx) {
 			} else {
 				sb.WriteString("package p\n\n")
 			}
-			switch gr.Intn(5) {
+			switch gr.Intn(9) {
+			case 5:
+				// two dot-imported packages exporting the same names: collisions inside the file scope
+				sb.WriteString("import (\n\t. \"x/dot1\"\n\t. \"x/dot2\"\n)\n\n")
+			case 6:
+				// two imports with the same local name
+				sb.WriteString("import (\n\t\"x/a/fmt\"\n\t\"x/b/fmt\"\n)\n\n")
+			case 7:
+				sb.WriteString("import (\n\tfmt \"x/q\"\n\t\"x/fmt\"\n\t. \"x/dot\"\n)\n\n")
+			case 8:
+				// a dot-imported member that is also an import name and a package-level name
+				sb.WriteString("import (\n\tclash \"x/q\"\n\t. \"x/dot\"\n)\n\n")
 			case 0:
 				sb.WriteString("import \"x/fmt\"\n\n")
 			case 1:
